@@ -19,7 +19,7 @@
    changes its outcome.  What is missing for the full statement: that numpy.linalg.svd's values satisfy these
    hypotheses (they do up to rounding; checked numerically by the correspondence), and irrational a / Q / t. *)
 From Coq Require Import List ZArith QArith Reals Permutation.
-From CE Require Import Model.Itv Model.KnnCounts Model.GeoKnn Model.GeoEllipsoid Proofs.ItvProofs Proofs.KdeProofs Proofs.GeoKnnProofs.
+From CE Require Import Model.Itv Model.KnnCounts Model.GeoKnn Model.GeoEllipsoid Model.GeoRank Proofs.ItvProofs Proofs.KdeProofs Proofs.GeoKnnProofs Proofs.GeoEllipsoidProofs.
 Import ListNotations.
 Close Scope Q_scope.
 
@@ -184,3 +184,75 @@ Theorem C12_case_check_is_sound :
      (Rabs (geo_spec D d (locs_of k pts pts svl insl) - IZR vn / IZR vd) <= IZR tn / IZR td)%R).
 Proof. exact (conj case_expr_is_oracle_expr check_geo_case_sound). Qed.
 Print Assumptions C12_case_check_is_sound.
+
+(* ======================================================================================================================
+   Specification of the exact ellipsoid count (Model/GeoEllipsoid.v), and the rank of the centred neighbourhood on lists.
+
+   Notation (Proofs/GeoEllipsoidProofs.v):  Gm d p l = A^T A, the integer Gram matrix of A = (k+1) * (neighbourhood - mean)
+   (k = length l);  nn l = (k+1)^2;  dotR the dot product of real lists;  solves G z x : G x = z (row by row, x real);
+   inside d p l q : some solution x of  Gm x = q - p  has  (k+1)^2 (q - p).x <= 1,  i.e.  z^T (Y^T Y)^-1 z <= 1 for
+   Y = A / ((k+1) D), z = (q - p) / D (the scale D cancels);  counts P l n : exactly n elements of l satisfy P.
+
+   FULL STATEMENT (all k, d):  ins_exact d p l = Some n -> counts (inside d p l) l n  for every neighbourhood in general
+   position (rank min(k, d)).  PROVED: the computing branch k >= d, for all inputs, with no genericity hypothesis
+   (C12_exact_inside_count_is_the_ellipsoid_count_partial).  For k < d the function returns 0 without computing; that 0 is
+   the count because the quadratic form of a rank-k neighbourhood is exactly 2 > 1 -- proved for abstract matrices over any
+   field (C12Mx.v: C12_rank_k_ellipsoid_quadratic_form_is_2), not transported to lists: that is the missing part.
+   ====================================================================================================================== *)
+
+(* the elimination inside ell_value is Gaussian elimination: every vector satisfying the n eliminated equations keeps, on
+   the other rows, the residuals of the eliminated matrix (uniqueness side), and such vectors exist for every choice of
+   the remaining coordinates (existence side); any n, any number of rows and columns *)
+Theorem C12_elimination_preserves_and_solves :
+  (forall n rows rows' v, elim n rows = Some rows' -> shaped (length v) rows -> (n <= length v)%nat ->
+     firstn n (res rows v) = repeat 0%R n -> res rows' (skipn n v) = skipn n (res rows v)) /\
+  (forall n rows rows' w, elim n rows = Some rows' -> shaped (n + length w) rows ->
+     exists x, length x = n /\ firstn n (res rows (x ++ w)) = repeat 0%R n).
+Proof. exact (conj elim_residuals elim_solvable). Qed.
+Print Assumptions C12_elimination_preserves_and_solves.
+
+(* whenever ell_value returns v: the system G x = z HAS a real solution, and EVERY solution gives v = (k+1)^2 z.x:
+   v is the quadratic form z^T G^-1 z of the code's test (no inverse needs defining), for every d and every data *)
+Theorem C12_ellipsoid_value_is_the_quadratic_form : forall d (p : point) (l : list point) (q : point) v,
+  length p = d -> length q = d -> ell_value d p l q = Some v ->
+  (exists x, solves (Gm d p l) (vsub q p) x) /\
+  (forall x, solves (Gm d p l) (vsub q p) x -> Q2R v = (IZR (nn l) * dotR (zrowR (vsub q p)) x)%R).
+Proof. exact ell_value_spec. Qed.
+Print Assumptions C12_ellipsoid_value_is_the_quadratic_form.
+
+(* the count of the correspondence (check_ins_case) IS the number of neighbours inside the local ellipsoid; every d, every
+   k >= d, every data -- and each neighbour's value was well defined (solvable, independent of the solution) *)
+Theorem C12_exact_inside_count_is_the_ellipsoid_count_partial :
+  (forall d (p : point) (l : list point) n, (d <= length l)%nat -> length p = d -> Forall (fun q => length q = d) l ->
+     ins_exact d p l = Some n -> counts (inside d p l) l n) /\
+  (forall d (p : point) (l : list point) n, (d <= length l)%nat -> length p = d -> Forall (fun q => length q = d) l ->
+     ins_exact d p l = Some n ->
+     forall q, In q l -> exists v, ell_value d p l q = Some v /\
+       (exists x, solves (Gm d p l) (vsub q p) x) /\
+       (forall x, solves (Gm d p l) (vsub q p) x -> Q2R v = (IZR (nn l) * dotR (zrowR (vsub q p)) x)%R)) /\
+  (forall d (p : point) (l : list point), (length l < d)%nat -> ins_exact d p l = Some 0%Z).
+Proof. exact (conj ins_exact_spec (conj ins_exact_defined ins_exact_rank_deficient)). Qed.
+Print Assumptions C12_exact_inside_count_is_the_ellipsoid_count_partial.
+
+(* the IMPLEMENTATION's form of the test, sum_l ((z_real . v_l) / sigma_l)^2 over the singular pairs of the centred
+   neighbourhood Y = A / ((k+1) D), equals the rational number the model computes, and is <= 1 exactly when the neighbour
+   is inside -- for every d, GIVEN that the (v_l, sigma_l) are eigenpairs of Y^T Y (i.e. of G with eigenvalue
+   (k+1)^2 D^2 sigma_l^2) that resolve z.  The SVD is the hypothesis (its values are irrational); nothing else is *)
+Theorem C12_singular_vector_sum_is_the_model_value_partial :
+  forall d D (p : point) (l : list point) (q : point) val (S : list (list R * R)),
+  (0 < D)%Z -> length p = d -> length q = d -> ell_value d p l q = Some val ->
+  Forall (fun vs => (0 < snd vs)%R) S ->
+  Forall (eigenpair d (Gm d p l)) (as_eigen (IZR (nn l) * IZR (D * D)) S) ->
+  zrowR (vsub q p) = lincomb d (map (fun vs => (dotR (zrowR (vsub q p)) (fst vs), fst vs)) S) ->
+  hyper_sum D (vsub q p) S = Q2R val /\ ((hyper_sum D (vsub q p) S <= 1)%R <-> inside d p l q).
+Proof. exact hyperellipsoid_sum_is_ell_value. Qed.
+Print Assumptions C12_singular_vector_sum_is_the_model_value_partial.
+
+(* RANK on lists: every column of the executable (k+1)-fold centred neighbourhood sums to zero (the row of ones annihilates
+   it: the list counterpart of C12Mx.C12_centred_neighbourhood_has_rank_at_most_k, first clause), for every neighbourhood
+   and dimension; hence that conjunct of the rank correspondence (Model/GeoRank.rank_one) can never fail *)
+Theorem C12_centred_columns_sum_to_zero_on_lists :
+  (forall (nb : list point) d j, Forall (fun q => length q = d) nb -> zsum (col j (centred nb d)) = 0%Z) /\
+  (forall (nb : list point) d, Forall (fun q => length q = d) nb -> colsums0 (centred nb d) d = true).
+Proof. exact (conj centred_colsum_zero colsums0_centred). Qed.
+Print Assumptions C12_centred_columns_sum_to_zero_on_lists.
